@@ -176,4 +176,7 @@ def check(ctx: Ctx) -> None:
     # a transport whose write is not atomic w.r.t. concurrent senders garbles the stream under load (only on that transport)
     from .C08 import check_atomic_write
     check_atomic_write(ctx, "C16.g")
+    # kill/wait of a hung worker must work through the proxy as it does locally (order of join and wait, kill on timeout)
+    from .C05 import check_kill_on_timeout
+    check_kill_on_timeout(ctx, "C16.h")
 
